@@ -1,8 +1,10 @@
 (** C45 — executable model of the native ONT ID contract's mutating methods
     (/repo/smartcontract/service/native/ontid: method.go, controller.go, recovery.go,
-    authentication.go, owner.go, group.go, utils.go, attribute.go), new-ONT-ID code path
-    (srvc.Height >= config.GetNewOntIdHeight(), which is every height on the default network and
-    every current height on main net / polaris).
+    authentication.go, owner.go, group.go, utils.go, attribute.go, init.go): the new-ONT-ID code
+    path (srvc.Height >= config.GetNewOntIdHeight(): every current height) and, per event, the
+    old one (heights below it: fewer methods, old key-record format), so that identities created
+    before the switch and managed after it are covered.  The tie to the code holds for histories
+    whose old-path calls precede the new-path ones (heights only grow).
 
     Abstraction of data (done by the driver, checked by the correspondence):
       - ONT IDs, serialized public keys and addresses are tokens ([N]): distinct byte strings get
@@ -135,7 +137,21 @@ Definition target (o : op) : id :=
   | RemoveAuthKey i _ _ | RemoveAuthKeyByRecovery i _ _ | RemoveAuthKeyByController i _ _ => i
   end.
 
-Record event := mkEv { e_signers : list addr; e_op : op }.
+(** [e_legacy]: the call runs at a height below config.GetNewOntIdHeight() (old code path). *)
+Record event := mkEv { e_legacy : bool; e_signers : list addr; e_op : op }.
+
+(** init.go RegisterIDContract: the methods registered below the new-ONT-ID height. *)
+Definition legacy_method (o : op) : bool :=
+  match o with
+  | RegIdWithPublicKey _ _ | RegIdWithAttributes _ _ _ | RegIdWithController _ _ _
+  | AddKey _ _ _ | RemoveKey _ _ _ | AddAttributes _ _ _ | RemoveAttribute _ _ _
+  | RevokeID _ _ | RevokeIDByController _ _ | RemoveController _ _
+  | AddKeyByController _ _ _ | RemoveKeyByController _ _ _
+  | AddAttributesByController _ _ _ | RemoveAttributeByController _ _ _
+  | AddRecovery _ _ _ | ChangeRecovery _ _ _ | SetRecovery _ _ _ | UpdateRecovery _ _ _
+  | AddKeyByRecovery _ _ _ | RemoveKeyByRecovery _ _ _ => true
+  | _ => false
+  end.
 
 (** ---------- list helpers ---------- *)
 Fixpoint upd_nth {A : Type} (l : list A) (n : nat) (x : A) : list A :=
@@ -380,8 +396,12 @@ Section Model.
   Definition batch_opt (l : list attr) (a : option (list attr)) : option (list attr) :=
     match a with Some x => batch_insert l x | None => None end.
 
-  (** One native call as its own transaction.  [None] = the call fails (state unchanged). *)
-  Definition step (s : state) (sg : list addr) (o : op) : option state :=
+  (** One native call as its own transaction.  [None] = the call fails (state unchanged).
+      [lg]: the call runs below the new-ONT-ID height: only the methods registered there exist,
+      and insertPk writes the old record format (key, revoked), which every later read
+      (getAllPk_Version1, storage version 0) takes as "in the key list, with authentication". *)
+  Definition step (lg : bool) (s : state) (sg : list addr) (o : op) : option state :=
+    if lg && negb (legacy_method o) then None else
     match o with
     | RegIdWithPublicKey i kb =>
         (* method.go regIdWithPublicKey *)
@@ -399,7 +419,7 @@ Section Model.
         match kb with
         | BKey k =>
             if id_valid i && id_ok i && negb (reg_attr_taken (r_flag (s i))) && check_witness sg kb
-            then match insert_pk (r_keys (s i)) k true false, batch_opt (r_attrs (s i)) attrs with
+            then match insert_pk (r_keys (s i)) k true lg, batch_opt (r_attrs (s i)) attrs with
                  | Some l, Some a => Some (upd s i (set_flag (set_attrs (set_keys (s i) l) a) FLAG_VALID))
                  | _, _ => None
                  end
@@ -423,10 +443,10 @@ Section Model.
     | AddKey i newk operator =>
         if newk_ok newk && check_witness sg operator && id_ok i && is_valid s i &&
            (old_rec_is s i operator || is_owner (r_keys (s i)) operator)
-        then add_key_as s i newk true false else None
+        then add_key_as s i newk (lg || true) (lg || false) else None
     | AddKeyByIndex i newk idx =>
         if newk_ok newk && id_ok i && is_valid s i && cwbi s sg i (u32 idx)
-        then add_key_as s i newk true false else None
+        then add_key_as s i newk (lg || true) (lg || false) else None
     | RemoveKey i kb operator =>
         (* getOldRecovery's error (a version-1 recovery is stored) is returned here *)
         if check_witness sg operator && id_ok i && is_valid s i &&
@@ -459,7 +479,7 @@ Section Model.
         then Some (upd s i (set_ctrl (s i) None)) else None
     | AddKeyByController i newk pr =>
         if newk_ok newk && id_ok i && is_valid s i && verify_ctrl s sg i pr
-        then add_key_as s i newk true false else None
+        then add_key_as s i newk (lg || true) (lg || false) else None
     | RemoveKeyByController i kidx pr =>
         if id_ok i && is_valid s i && verify_ctrl s sg i pr
         then with_keys s i (revoke_by_index (r_keys (s i)) (u32 kidx)) else None
@@ -492,19 +512,19 @@ Section Model.
         then Some (upd s i (set_rec (s i) None)) else None
     | AddKeyByRecovery i newk sgn =>
         if newk_ok newk && id_ok i && is_valid s i && verify_rec s sg i sgn
-        then add_key_as s i newk true false else None
+        then add_key_as s i newk (lg || true) (lg || false) else None
     | RemoveKeyByRecovery i kidx sgn =>
         if id_ok i && is_valid s i && verify_rec s sg i sgn
         then with_keys s i (revoke_by_index (r_keys (s i)) (u32 kidx)) else None
     | AddNewAuthKey i newk idx =>
         if newk_ok newk && id_ok i && is_valid s i && cwbi s sg i (u32 idx)
-        then add_key_as s i newk false true else None
+        then add_key_as s i newk (lg || false) (lg || true) else None
     | AddNewAuthKeyByRecovery i newk sgn =>
         if newk_ok newk && id_ok i && is_valid s i && verify_rec s sg i sgn
-        then add_key_as s i newk false true else None
+        then add_key_as s i newk (lg || false) (lg || true) else None
     | AddNewAuthKeyByController i newk pr =>
         if newk_ok newk && id_ok i && is_valid s i && verify_ctrl s sg i pr
-        then add_key_as s i newk false true else None
+        then add_key_as s i newk (lg || false) (lg || true) else None
     | SetAuthKey i kidx idx =>
         if id_ok i && is_valid s i && cwbi s sg i (u32 idx)
         then with_keys s i (change_auth (r_keys (s i)) (u32 kidx) true) else None
@@ -527,6 +547,6 @@ Section Model.
 
   (** A history: events applied in order, failing calls leave the state unchanged. *)
   Definition step_ev (s : state) (e : event) : state :=
-    match step s (e_signers e) (e_op e) with Some s' => s' | None => s end.
+    match step (e_legacy e) s (e_signers e) (e_op e) with Some s' => s' | None => s end.
   Definition run (s : state) (h : list event) : state := fold_left step_ev h s.
 End Model.
